@@ -333,6 +333,28 @@ def symmetric_dimers():
     return sorted(set(out))
 
 
+def quaternize(kek, rng, protonate=None):
+    """Kekule molecule -> copy with one pyridine-type nitrogen (two neighbours, one double bond, no H, neutral) methylated or
+    protonated through the editing API; None when there is no such atom"""
+    cand = [n for n, a in kek.atoms() if a.atomic_number == 7 and not a.charge and not a.implicit_hydrogens and len(kek._bonds[n]) == 2
+            and sorted(b.order for b in kek._bonds[n].values()) == [1, 2]]
+    if not cand:
+        return None
+    n = rng.choice(cand)
+    v = kek.copy()
+    _fix_slots(v)
+    if protonate is None:
+        protonate = rng.random() < .4
+    if not protonate:
+        x = v.add_atom('C')
+        v.add_bond(n, x, 1)
+    with v:
+        v.atom(n).charge = 1
+    if v.check_valence():
+        return None
+    return v
+
+
 def base_molecules(rng, n_corpus, n_special=None, n_ring=0, decorate_p=0.5, normalize=True):
     """mixed workload: corpus sample + curated + ring assemblies, part of them decorated"""
     out = []
